@@ -615,6 +615,8 @@ def compose_root(v, depth=0):
         if isinstance(x, SelfV):
             if x.path:
                 roots.add((x.path[0].lstrip('_'), x.path[-1]))
+            else:
+                roots.add(('*', '*'))
         elif isinstance(x, Sym):
             for a in x.args:
                 rec(a, d + 1)
@@ -647,6 +649,8 @@ def compare_bindings(cmpn, presult, cls, model):
             continue
         pattrs = {x[0] for x in bl}
         cattrs = {r[0] for r in roots}
+        if '*' in cattrs:
+            continue
         if pattrs & cattrs:
             # same root attribute; compare innermost names when both sides have one
             inner_p = {x[1] for x in bl if x[1] and x[0] in cattrs}
